@@ -15,8 +15,11 @@ Cases == JsonDeserialize(IOEnv.CONV_INPUT).cases
 
 VARIABLE st
 Init == st = [kind |-> "init"]
-Pick == st.kind = "init" /\ \E n \in 1..Len(Cases) : st' = [kind |-> "case", n |-> n]
-Next == Pick
+(* two-level fan-out: a one-level star (all cases successors of the initial state) is expanded by a single TLC worker *)
+NSh == 16
+PickShard == st.kind = "init" /\ \E s \in 0..(NSh - 1) : st' = [kind |-> "shard", s |-> s]
+Pick == st.kind = "shard" /\ \E n \in 1..Len(Cases) : n % NSh = st.s /\ st' = [kind |-> "case", n |-> n]
+Next == PickShard \/ Pick
 
 ActAll(g, X) == [b \in 1..Len(X) |-> [c \in 1..Len(X[b]) |-> Act(g, X[b][c])]]
 Vals(X)      == [b \in 1..Len(X) |-> [c \in 1..Len(X[b]) |-> X[b][c].val]]
